@@ -10,6 +10,7 @@ import DriverLib.Ctx
 import DriverLib.Sig
 import DriverLib.Start
 import DriverLib.Tasks
+import DriverLib.Factory
 
 open Lean Asphalt
 
@@ -156,6 +157,7 @@ def dispatch (j : Json) : Except String Json := do
   | "sig" => runSig j
   | "startup" => runStartup j
   | "tasks" => runTasks j
+  | "factory" => runFactory j
   | _ => throw s!"unknown kind {kind}"
 
 end Drv
